@@ -519,6 +519,9 @@ func provablyNonNilErr(v ssa.Value, at ssa.Instruction) bool {
 
 // testedNonNil: block b is dominated by the true edge of `v != nil` (or false edge of `v == nil`).
 func testedNonNil(v ssa.Value, b *ssa.BasicBlock) bool {
+	if v.Referrers() == nil {
+		return false
+	}
 	for _, ref := range *v.Referrers() {
 		bo, ok := ref.(*ssa.BinOp)
 		if !ok || (bo.Op != token.NEQ && bo.Op != token.EQL) {
@@ -547,6 +550,9 @@ func testedNonNil(v ssa.Value, b *ssa.BasicBlock) bool {
 
 // testedNil: block b is dominated by the edge on which v == nil.
 func testedNil(v ssa.Value, b *ssa.BasicBlock) bool {
+	if v.Referrers() == nil {
+		return false
+	}
 	for _, ref := range *v.Referrers() {
 		bo, ok := ref.(*ssa.BinOp)
 		if !ok || (bo.Op != token.NEQ && bo.Op != token.EQL) {
@@ -690,4 +696,107 @@ func typeIs(t types.Type, pkgSuffix, name string) bool {
 	}
 	p := n.Obj().Pkg().Path()
 	return p == pkgSuffix || strings.HasSuffix(p, "/"+pkgSuffix)
+}
+
+// ---------------------------------------------------------------------------------------------
+// roots: resolve a value to the set of defining values, looking through conversions, phis, loads
+// of locals spilled to Allocs (all stores), closure free variables (bound at the MakeClosure site
+// in the parent) and by-reference captures.  Each root is paired with the function it lives in.
+
+type rootVal struct {
+	V  ssa.Value
+	Fn *ssa.Function
+}
+
+func roots(v ssa.Value, fn *ssa.Function) []rootVal {
+	var out []rootVal
+	seen := map[ssa.Value]bool{}
+	var rec func(v ssa.Value, fn *ssa.Function, depth int)
+	allocStores := func(al *ssa.Alloc, fn *ssa.Function, depth int) bool {
+		n := 0
+		for _, ref := range *al.Referrers() {
+			switch x := ref.(type) {
+			case *ssa.Store:
+				if x.Addr == al {
+					rec(x.Val, fn, depth+1)
+					n++
+				}
+			case *ssa.MakeClosure:
+				// stores inside closures capturing the alloc by reference
+				cl, _ := x.Fn.(*ssa.Function)
+				for i, b := range x.Bindings {
+					if b != ssa.Value(al) || cl == nil {
+						continue
+					}
+					for _, r2 := range *cl.FreeVars[i].Referrers() {
+						if st, ok := r2.(*ssa.Store); ok && st.Addr == ssa.Value(cl.FreeVars[i]) {
+							rec(st.Val, cl, depth+1)
+							n++
+						}
+					}
+				}
+			}
+		}
+		return n > 0
+	}
+	bindingOf := func(fv *ssa.FreeVar, fn *ssa.Function) (ssa.Value, *ssa.Function) {
+		p := fn.Parent()
+		if p == nil {
+			return nil, nil
+		}
+		idx := -1
+		for k, f2 := range fn.FreeVars {
+			if f2 == fv {
+				idx = k
+			}
+		}
+		for _, blk := range p.Blocks {
+			for _, in := range blk.Instrs {
+				if mc, ok := in.(*ssa.MakeClosure); ok && mc.Fn == ssa.Value(fn) && idx >= 0 {
+					return mc.Bindings[idx], p
+				}
+			}
+		}
+		return nil, nil
+	}
+	rec = func(v ssa.Value, fn *ssa.Function, depth int) {
+		if v == nil || depth > 12 {
+			return
+		}
+		v = stripConv(v)
+		if seen[v] {
+			return
+		}
+		seen[v] = true
+		switch x := v.(type) {
+		case *ssa.Phi:
+			for _, e := range x.Edges {
+				rec(e, fn, depth+1)
+			}
+			return
+		case *ssa.FreeVar:
+			if b, p := bindingOf(x, fn); b != nil {
+				rec(b, p, depth+1)
+				return
+			}
+		case *ssa.UnOp:
+			if x.Op == token.MUL {
+				switch a := x.X.(type) {
+				case *ssa.Alloc:
+					if allocStores(a, fn, depth) {
+						return
+					}
+				case *ssa.FreeVar:
+					if b, p := bindingOf(a, fn); b != nil {
+						if al, ok := b.(*ssa.Alloc); ok && allocStores(al, p, depth) {
+							return
+						}
+					}
+				}
+			}
+		}
+		out = append(out, rootVal{v, fn})
+	}
+	rec(v, fn, 0)
+	return out
 }
